@@ -16,6 +16,10 @@ pub fn dispatch(cmd: &str, c: &Value) -> Value {
         "open_prefix" => open_prefix(c),
         "archive_fault" => archive_fault(c),
         "fasta_parse" => fasta_parse(c),
+        "catalogue" => catalogue(c),
+        "varint" => varint(c),
+        "collvarint" => collvarint(c),
+        "stream_names" => stream_names(c),
         "fasta_present" => fasta_present(c),
         "pansn" => pansn(c),
         #[cfg(ekg_ragc_verif)]
@@ -374,4 +378,101 @@ pub fn pansn(c: &Value) -> Value {
     let parts: Vec<&str> = h.split('#').collect();
     let (xs, xt) = if parts.len() >= 3 { (format!("{}#{}", parts[0], parts[1]), parts[2..].join("#")) } else { ("unknown".to_string(), h.clone()) };
     json!({ "sample": s.as_bytes(), "contig": t.as_bytes(), "ok": s == xs && t == xt })
+}
+
+// ---------------------------------------------------------------- C02 format kernels
+pub fn varint(c: &Value) -> Value {
+    let v = u64_of(&c["v"]);
+    let mut b = vec![];
+    ragc_common::varint::write_varint(&mut b, v).unwrap();
+    let n = b.len() - 1;
+    let mut ok = b[0] as usize == n && (n == 0 || b[1] != 0);
+    let mut x = 0u64; for &y in &b[1..] { x = (x << 8) | y as u64; }
+    ok = ok && x == v;
+    let (r, used) = ragc_common::varint::read_varint(&mut std::io::Cursor::new(&b)).unwrap();
+    json!({ "bytes": b, "ok": ok && r == v && used == n + 1 })
+}
+
+pub fn collvarint(c: &Value) -> Value {
+    let v = c["v"].as_u64().unwrap() as u32;
+    let mut b = vec![];
+    ragc_common::CollectionVarInt::encode(&mut b, v);
+    let (t1, t2, t3, t4) = (1u64 << 7, (1u64 << 7) + (1 << 14), (1u64 << 7) + (1 << 14) + (1 << 21), (1u64 << 7) + (1 << 14) + (1 << 21) + (1 << 28));
+    let vv = v as u64;
+    let exp: Vec<u8> = if vv < t1 { vec![vv as u8] } else if vv < t2 { let x = vv - t1; vec![0x80 | (x >> 8) as u8, x as u8] }
+        else if vv < t3 { let x = vv - t2; vec![0xC0 | (x >> 16) as u8, (x >> 8) as u8, x as u8] }
+        else if vv < t4 { let x = vv - t3; vec![0xE0 | (x >> 24) as u8, (x >> 16) as u8, (x >> 8) as u8, x as u8] }
+        else { let x = vv - t4; vec![0xF0, (x >> 24) as u8, (x >> 16) as u8, (x >> 8) as u8, x as u8] };
+    let mut p: &[u8] = &b;
+    let d = ragc_common::CollectionVarInt::decode(&mut p).unwrap();
+    json!({ "bytes": b, "ok": b == exp && d == v && p.is_empty() })
+}
+
+pub fn stream_names(c: &Value) -> Value {
+    let n = c["n"].as_u64().unwrap() as u32;
+    const A: &[u8] = b"0123456789ABCDEFGHIJKLMNOPQRSTUVWXYZabcdefghijklmnopqrstuvwxyz_#";
+    let mut exp = vec![]; let mut x = n; loop { exp.push(A[(x & 63) as usize]); x >>= 6; if x == 0 { break; } }
+    let b64 = ragc_common::stream_naming::int_to_base64(n);
+    let r = ragc_common::stream_naming::stream_ref_name(3000, n);
+    let d = ragc_common::stream_naming::stream_delta_name(3000, n);
+    let es = String::from_utf8(exp.clone()).unwrap();
+    json!({ "b64": b64.as_bytes(), "ref": r.as_bytes(), "delta": d.as_bytes(), "ok": b64.as_bytes() == &exp[..] && r == format!("x{}r", es) && d == format!("x{}d", es) })
+}
+
+// ---------------------------------------------------------------- C03 catalogue round trip through a real archive file
+pub fn catalogue(c: &Value) -> Value {
+    use ragc_common::{Archive, CollectionV3};
+    let path = tmp_path("c03");
+    let s = |v: &Value| String::from_utf8_lossy(&bytes(v)).to_string();
+    let samples = c["samples"].as_array().unwrap();
+    let mut coll = CollectionV3::new();
+    coll.set_config(c["segment_size"].as_u64().unwrap_or(1000) as u32, c["k"].as_u64().unwrap_or(21) as u32, None);
+    let mut ar = Archive::new_writer();
+    ar.open(&path).unwrap();
+    coll.prepare_for_compression(&mut ar).unwrap();
+    for sm in samples {
+        for ct in sm["contigs"].as_array().unwrap() {
+            coll.register_sample_contig(&s(&sm["name"]), &s(&ct["name"])).unwrap();
+            for (place, sg) in ct["segs"].as_array().unwrap().iter().enumerate() {
+                coll.add_segment_placed(&s(&sm["name"]), &s(&ct["name"]), place, sg[0].as_u64().unwrap() as u32, sg[1].as_u64().unwrap() as u32, sg[2].as_bool().unwrap(), sg[3].as_u64().unwrap() as u32).unwrap();
+            }
+        }
+    }
+    coll.store_batch_sample_names(&mut ar).unwrap();
+    let mut pos = 0usize;
+    for b in c["batches"].as_array().unwrap() { let n = b.as_u64().unwrap() as usize; coll.store_contig_batch(&mut ar, pos, (pos + n).min(samples.len())).unwrap(); pos += n; }
+    ar.flush_buffers().unwrap(); ar.close().unwrap();
+    let mut rd = Archive::new_reader(); rd.open(&path).unwrap();
+    let mut dst = CollectionV3::new();
+    dst.set_config(c["segment_size"].as_u64().unwrap_or(1000) as u32, c["k"].as_u64().unwrap_or(21) as u32, None);
+    dst.prepare_for_decompression(&rd).unwrap();
+    dst.load_batch_sample_names(&mut rd).unwrap();
+    let nb = dst.get_no_contig_batches(&rd).unwrap();
+    for b in 0..nb { dst.load_contig_batch(&mut rd, b).unwrap(); }
+    let _ = std::fs::remove_file(&path);
+    let mut ok = true; let mut why = String::new();
+    let names = dst.get_samples_list(false);
+    let mut out = vec![];
+    if names.len() != samples.len() { ok = false; why = "sample count".into(); }
+    for (i, sm) in samples.iter().enumerate() {
+        if i >= names.len() { break; }
+        if names[i] != s(&sm["name"]) { ok = false; why = format!("sample {} name", i); }
+        let desc = dst.get_sample_desc(&names[i]).unwrap_or_default();
+        let exp = sm["contigs"].as_array().unwrap();
+        if desc.len() != exp.len() { ok = false; why = format!("sample {} contig count {} != {}", i, desc.len(), exp.len()); }
+        let mut cts = vec![];
+        for (j, (cn, segs)) in desc.iter().enumerate() {
+            cts.push(json!({"name": cn.as_bytes(), "segs": segs.iter().map(|d| json!([d.group_id, d.in_group_id, d.is_rev_comp, d.raw_length])).collect::<Vec<_>>()}));
+            if j < exp.len() {
+                if *cn != s(&exp[j]["name"]) { ok = false; why = format!("sample {} contig {} name", i, j); }
+                let es = exp[j]["segs"].as_array().unwrap();
+                if segs.len() != es.len() { ok = false; why = format!("sample {} contig {} segment count", i, j); }
+                for (d, x) in segs.iter().zip(es.iter()) {
+                    if d.group_id as u64 != x[0].as_u64().unwrap() || d.in_group_id as u64 != x[1].as_u64().unwrap() || d.is_rev_comp != x[2].as_bool().unwrap() || d.raw_length as u64 != x[3].as_u64().unwrap() { ok = false; why = format!("sample {} contig {} descriptor", i, j); }
+                }
+            }
+        }
+        out.push(json!({"name": names[i].as_bytes(), "contigs": cts}));
+    }
+    json!({ "ok": ok, "why": why, "samples": out })
 }
